@@ -10,17 +10,23 @@
     `shl_u32_inh|shr_u32_inh cfg mode a k`    the inherent `shl(ExpType)` / `shr(ExpType)`
     `shl_bu_<form>|shl_bi_<form>|shr_bu_<form>|shr_bi_<form> cfg mode a k`   k = hex pattern of a
                                  `BUint<N>` / `BInt<N>` amount (same N)
+    `shl_bu<M>_<form>|shl_bi<M>_<form>|shr_bu<M>_<form>|shr_bi<M>_<form> cfg mode a k`   k = hex pattern of a
+                                 `BUint<M>` / `BInt<M>` amount over the same digit type, M digits (M ≠ N allowed)
     `sum|sum_ref|product|product_ref cfg mode a1,a2,…`   (`-` = empty iterator)
     `default cfg mode`
     `add_digit|div_digit|rem_digit cfg mode a d`   (unsigned only; d hex digit)
     `cmp_partial_cmp|cmp_ord_cmp|cmp_cmp_inh|cmp_eq|cmp_eq_inh|cmp_ne|cmp_lt|cmp_le|cmp_gt|cmp_ge
         cfg mode a b`
+    `ord_max|ord_min|max_inh|min_inh cfg mode a b`, `ord_clamp|clamp_inh cfg mode a mn mx`
+                                 (`Ord::max/min/clamp` as overridden in `{buint,bint}/cmp.rs`, and the
+                                 inherent `const fn`s they forward to)
   Answers: hex pattern; `P`; `true`/`false`; `Less|Equal|Greater`; `S(Less)`…; `rem_digit`: hex digit.
   Spec answer `*`: the property leaves the value open (release shift whose reduced amount is ≥ BITS at
   a width that is not a power of two; `add_digit` whose exact sum is not representable).
 -/
 import Bnum.Drive.Util
 import Bnum.Model.Ops
+import Bnum.Model.C17Extra
 import Bnum.Spec.Ops
 namespace Bnum.Drive.C17
 open Bnum Bnum.Drive
@@ -146,6 +152,18 @@ private def shiftBnumModel (T : Ops.Ty) (dbg left ks : Bool) (form : String) :
   | false, "as" => some (Ops.shrBAssign T dbg ks) | false, "asr" => some (Ops.shrBAssignRef T dbg ks)
   | _, _ => none
 
+/-- `bu` / `bi` (amount has the operand's digit count) or `bu<M>` / `bi<M>`:
+    (amount is signed, digit count of the amount) -/
+private def parseBnumTy (n : Nat) (s : String) : Option (Bool × Nat) :=
+  let go (ks : Bool) (rest : String) : Option (Bool × Nat) :=
+    if rest.isEmpty then some (ks, n) else
+      match rest.toNat? with
+      | some m => if m = 0 then none else some (ks, m)
+      | none => none
+  if s.startsWith "bu" then go false (String.ofList (s.toList.drop 2))
+  else if s.startsWith "bi" then go true (String.ofList (s.toList.drop 2))
+  else none
+
 private def parseDir : String → Option Bool
   | "shl" => some true
   | "shr" => some false
@@ -160,6 +178,9 @@ def handle : Handler := fun c op args =>
       Option (String × String) := do
     let a ← parseVal c a; let b ← parseVal c b
     some (f a b, g (valOf c a) (valOf c b))
+  -- `clamp`: a panic iff `min > max`, else the mathematical clamp
+  let clampSpec (x lo hi : Int) : String :=
+    if lo > hi then "P" else showInt c (if x < lo then lo else if hi < x then hi else x)
   match op, args with
   -- Default
   | "default", [mode] => do
@@ -258,6 +279,27 @@ def handle : Handler := fun c op args =>
   | "cmp_ge", [mode, a, b] => do
     let _ ← parseMode mode
     cmpArgs (fun a b => showBool (Ops.opGe T a b)) (fun x y => showBool (x ≥ y)) a b
+  -- `Ord::max/min/clamp` (overridden) and their inherent twins
+  | "ord_max", [mode, a, b] => do
+    let _ ← parseMode mode
+    cmpArgs (fun a b => showVal c (Ops.ordMax T a b)) (fun x y => showInt c (if x ≤ y then y else x)) a b
+  | "max_inh", [mode, a, b] => do
+    let _ ← parseMode mode
+    cmpArgs (fun a b => showVal c (T.max a b)) (fun x y => showInt c (if x ≤ y then y else x)) a b
+  | "ord_min", [mode, a, b] => do
+    let _ ← parseMode mode
+    cmpArgs (fun a b => showVal c (Ops.ordMin T a b)) (fun x y => showInt c (if x ≤ y then x else y)) a b
+  | "min_inh", [mode, a, b] => do
+    let _ ← parseMode mode
+    cmpArgs (fun a b => showVal c (T.min a b)) (fun x y => showInt c (if x ≤ y then x else y)) a b
+  | "ord_clamp", [mode, a, mn, mx] => do
+    let _ ← parseMode mode
+    let a ← parseVal c a; let mn ← parseVal c mn; let mx ← parseVal c mx
+    some (showOut (showVal c) (Ops.ordClamp T a mn mx), clampSpec (valOf c a) (valOf c mn) (valOf c mx))
+  | "clamp_inh", [mode, a, mn, mx] => do
+    let _ ← parseMode mode
+    let a ← parseVal c a; let mn ← parseVal c mn; let mx ← parseVal c mx
+    some (showOut (showVal c) (T.clamp a mn mx), clampSpec (valOf c a) (valOf c mn) (valOf c mx))
   | _, _ =>
     match op.splitOn "_", args with
     -- binary operators, all forms
@@ -272,10 +314,11 @@ def handle : Handler := fun c op args =>
       let dbg ← parseMode mode
       let left ← parseDir dir
       let a ← parseVal c a
-      if tys = "bu" ∨ tys = "bi" then
-        let ks := decide (tys = "bi")
+      if tys.startsWith "bu" ∨ tys.startsWith "bi" then
+        let (ks, mk) ← parseBnumTy c.n tys
         let f ← shiftBnumModel T dbg left ks form
-        let kd ← parseVal c k
+        -- the amount is a `BUint<mk>` / `BInt<mk>` over the same digit type
+        let kd ← parseVal { c with n := mk } k
         let kv : Int := if ks then S w kd else (U w kd : Int)
         some (showOut (showVal c) (f a kd), spAns (Spec.Ops.shift left dbg true bits (valOf c a) kv))
       else
